@@ -66,6 +66,9 @@ let get id = try Hashtbl.find pool id with Not_found -> raise (Syntax "unknown o
 let nb o = nat (o.dim + 1)
 let ent n = p_entails n and bot n = p_bottom n and top n = p_top n
 let ub d n = p_ub (nat d) n and ube d n = p_ube (nat d) n
+(* fact read from the source by tools/props/C09.py on every run: does the NNC specialisation of
+   Pointset_Powerset::difference_assign omega-reduce its (const) argument?  (a pure optimisation; the model follows the code) *)
+let diff_reduces_y = (try Sys.getenv "VERIF_C09_DIFF_REDUCES_Y" <> "0" with Not_found -> true)
 (* the schedule of abandon_expensive_computations during the current step: null (never) or raised for the whole call (always) *)
 let hur : (nat -> bool) ref = ref never
 let omega o = { o with s = omega_reduce (ent (nb o)) (bot (nb o)) (ub o.dim (nb o)) !hur o.s }
@@ -486,7 +489,7 @@ let () =
                                   List.iter (fun (k, v) -> report ("op:difference_assign/" ^ k) line v; (match v with Fail _ -> dead := true | _ -> ())) vs;
                                   (* adopt the result; the argument (NNC only) has been omega-reduced in place *)
                                   resync st_x; Hashtbl.replace last_line id (try Hashtbl.find raw_lines id with Not_found -> "");
-                                  (if x.topo = "NNC" then [ yid, omega y ] else []), (fun () -> [])
+                                  (if x.topo = "NNC" && diff_reduces_y then [ yid, omega y ] else []), (fun () -> [])
                               | _ ->
                                   if hurried && Hashtbl.fold (fun _ (o : obj) acc -> acc || List.exists (fun (d : pd) -> snd d = None) o.s.seq0) pool false
                                   then raise (Skip "hurry-up path needs a validated generator hint for every disjunct");
@@ -538,11 +541,47 @@ let () =
               | "ans" :: "exn" :: cls :: _ -> report (qn ^ "/exception") line (Fail ("unexpected exception " ^ cls)); dead := true
               | _ ->
                 (try
-                  let upd, vs = (match timed (fun () -> Some (ref_query { t = rest } ans)) None with
-                                 | Some r -> r | None -> raise (Skip "reference computation exceeded its budget")) in
-                  List.iter (fun (k, v) -> report (qn ^ "/" ^ k) line v) vs;
-                  List.iter (fun (i, o) -> Hashtbl.replace pool i o) upd;
-                  judge_states ~touched:(List.map fst upd) qn line sts
+                  if hurried && Hashtbl.fold (fun _ (o : obj) acc -> acc || List.exists (fun (d : pd) -> snd d = None) o.s.seq0) pool false
+                  then raise (Skip "hurry-up path needs a validated generator hint for every disjunct");
+                  let run () = (match timed (fun () -> Some (ref_query { t = rest } ans)) None with
+                                | Some r -> r | None -> raise (Skip "reference computation exceeded its budget")) in
+                  if not hurried then begin
+                    let upd, vs = run () in
+                    List.iter (fun (k, v) -> report (qn ^ "/" ^ k) line v) vs;
+                    List.iter (fun (i, o) -> Hashtbl.replace pool i o) upd;
+                    judge_states ~touched:(List.map fst upd) qn line sts
+                  end else begin
+                    (* a query under abandonment: the answer must be the model's answer on the operands' values BEFORE the call
+                       (the never-abandoned model), and the const operands must denote the same sets after the call.  The
+                       states are then compared with the transcription run under the `always' oracle. *)
+                    hur := never;
+                    let _, vs_exact = run () in
+                    hur := always;
+                    let upd, _ = run () in
+                    (* which operands does the transcription itself enlarge (hurry-up collapse in omega_reduce() const)? *)
+                    let collapsed = List.filter (fun (i, (o : obj)) ->
+                      let pre = get i in
+                      (match timed (fun () -> unions_equiv (nb pre) (systems pre.s) (systems o.s)) None with Some false -> true | _ -> false)) upd in
+                    (* and which operands did the implementation change? *)
+                    let changed = List.filter (fun st ->
+                      match (try Some (get st.sid) with Syntax _ -> None) with
+                      | Some pre when pre.dim = st.sdim ->
+                          (match timed (fun () -> unions_equiv (nb pre) (systems pre.s) (List.map (fun d -> sys_of_cons d.dcons) st.djs)) None with Some false -> true | _ -> false)
+                      | _ -> false) sts in
+                    let wrong = List.exists (fun (_, v) -> match v with Fail _ -> true | _ -> false) vs_exact in
+                    if changed <> [] && List.for_all (fun st -> List.exists (fun (i, _) -> i = st.sid) collapsed) changed then
+                      (* one root cause: Powerset::omega_reduce() const takes its hurry-up branch inside a const method *)
+                      report "hurry/const-operand-collapsed" line
+                        (Fail (Printf.sprintf "const operand(s) %s denote a larger set after the call (omega_reduce() const collapsed them under abandonment, model agrees)%s"
+                                 (String.concat "," (List.map (fun st -> string_of_int st.sid) changed))
+                                 (if wrong then "; the answer differs from the answer on the values before the call" else "")))
+                    else begin
+                      List.iter (fun st -> report (qn ^ "/hurry-const-changed") (line ^ " @obj " ^ string_of_int st.sid) (Fail "a const operand denotes a different set after the call")) changed;
+                      List.iter (fun (k, v) -> report (qn ^ "/hurry-" ^ k) line v) vs_exact
+                    end;
+                    List.iter (fun (i, o) -> Hashtbl.replace pool i o) upd;
+                    judge_states ~touched:(List.map fst upd) qn line sts
+                  end
                 with Skip _ -> bump ("unmodelled:" ^ qn); List.iter resync sts))
            end
        | _ -> raise (Syntax ("unknown case line: " ^ line)))
